@@ -13,6 +13,7 @@ import (
 	"os/exec"
 	"path/filepath"
 	"runtime"
+	"runtime/pprof"
 	"sort"
 	"strconv"
 	"strings"
@@ -192,6 +193,16 @@ func main() {
 	}
 	switch os.Args[1] {
 	case "check":
+		if pf := os.Getenv("GOSX_CPUPROFILE"); pf != "" {
+			f, err := os.Create(pf)
+			if err == nil {
+				pprof.StartCPUProfile(f)
+				code := cmdCheck(os.Args[2:])
+				pprof.StopCPUProfile()
+				f.Close()
+				os.Exit(code)
+			}
+		}
 		os.Exit(cmdCheck(os.Args[2:]))
 	case "replay":
 		os.Exit(cmdReplay(os.Args[2:]))
